@@ -384,4 +384,12 @@ def parse_body(text) -> Body:
 
 def split_functions(mir_text):
     parts = re.split(r"\n(?=fn )", mir_text)
-    return [p for p in parts if p.startswith("fn ")]
+    out = []
+    for p in parts:
+        if not p.startswith("fn "):
+            continue
+        # a function ends at its closing brace in column 0; promoted constants and statics that
+        # follow it in the dump (they have their own bb0) are not part of it
+        i = p.find("\n}\n")
+        out.append(p[:i + 3] if i >= 0 else p)
+    return out
